@@ -294,7 +294,7 @@ def run(chk):
     noemit = CFG.replace('INVARIANT Emit\n', '')
     LK = '"none", "own", "index"'
     # design check at the larger bounds without printing, behaviours printed at the smaller ones
-    for mn, mr, lk in ([(2, 2, LK), (3, 0, LK)] if tier == 'quick' else [(3, 1, LK), (2, 2, LK), (4, 0, '"none", "own"')]):
+    for mn, mr, lk in ([(3, 0, LK)] if tier == 'quick' else [(3, 1, LK), (2, 2, LK), (4, 0, '"none", "own"')]):
         res = tlc.run('Split', cfg_text=noemit % (mn, '"default", "title", "single"', mr, lk), timeout=3400, heap='12g', want_beh=False)
         chk.add_tlc(res, 'links(MaxNodes=%d,refs<=%d)' % (mn, mr))
         if not res.ok:
